@@ -99,6 +99,38 @@ type CParent struct {
 
 func (CParent) TableName() string { return "c_parents" }
 
+// NParent / RParent: the soft-delete field carries a permission tag without update
+// rights (create only / read only). The filter on UPDATE statements does not depend on it.
+type NParent struct {
+	ID        int `gorm:"primaryKey"`
+	Ca        int
+	Cb        int
+	Cs        string
+	Cn        *int
+	Ct        *string
+	Cor       int
+	Band      string
+	Mark      int
+	DeletedAt gorm.DeletedAt `gorm:"<-:create"`
+}
+
+func (NParent) TableName() string { return "p_parents" }
+
+type RParent struct {
+	ID        int `gorm:"primaryKey"`
+	Ca        int
+	Cb        int
+	Cs        string
+	Cn        *int
+	Ct        *string
+	Cor       int
+	Band      string
+	Mark      int
+	DeletedAt gorm.DeletedAt `gorm:"->"`
+}
+
+func (RParent) TableName() string { return "p_parents" }
+
 // ZParent keeps a zero time instead of NULL in the soft-delete column of live rows
 // (tag zeroValue): every filter is `deleted_at = '<zero>'`.
 type ZParent struct {
@@ -299,6 +331,7 @@ type tcase struct {
 	Flavour                       string   // pointer (*gorm.DeletedAt) | embedded | column (own field/column name)
 	UnscopedVia                   string   // "" = Unscoped() in the chain | propagated (Session{PropagateUnscoped}.Unscoped().Session{NewDB}) | dropped (Unscoped().Session{NewDB}: scoped again)
 	Cfg                           string   // "" | PrepareStmt | QueryFields | NoReturning | tx (read paths)
+	JoinPreload                   bool     // joins path with JoinPath ["Parent"]: also Preload("Parent.Grand") (preload below a joined relation)
 	JoinPath                      []string // relation join names in call order, e.g. ["Parent.Grand", "Parent"]
 	Links                         [][3]int // parent id, tag id, state of the join row (live / marked)
 	History                       []hop
@@ -346,8 +379,11 @@ func (c tcase) String() string {
 	case "joins", "preload", "assoc", "delete-assoc", "assoc-unscoped":
 		fmt.Fprintf(&b, " children=%s", c.Children)
 	}
-	if c.nested() {
+	if c.nested() || c.JoinPreload {
 		fmt.Fprintf(&b, " grands=%s", c.Grands)
+	}
+	if c.JoinPreload {
+		b.WriteString(" +Preload(Parent.Grand)")
 	}
 	if c.Path == "joins" {
 		fmt.Fprintf(&b, " joins=%v", c.JoinPath)
@@ -471,7 +507,8 @@ func genCase(rt *rapid.T) tcase {
 	var gids []int
 	if c.Path == "joins" {
 		c.JoinPath = [][]string{{"Parent"}, {"Parent"}, {"Parent.Grand"}, {"Parent.Grand"}, {"Parent", "Parent.Grand"}, {"Parent.Grand", "Parent"}}[x.N(6)]
-		if c.nested() {
+		c.JoinPreload = len(c.JoinPath) == 1 && !c.nested() && x.Pct(60)
+		if c.nested() || c.JoinPreload {
 			c.Grands = genTable(x, rt, 1+x.N(4), nil)
 			gids = append(ids(c.Grands), 999)
 		}
@@ -488,7 +525,7 @@ func genCase(rt *rapid.T) tcase {
 	case "count", "pluck", "scan", "update", "delete":
 		if x.Pct(35) {
 			c.PtrModel = true
-			c.Flavour = []string{"pointer", "embedded", "column", "zerovalue"}[x.N(4)]
+			c.Flavour = []string{"pointer", "embedded", "column", "zerovalue", "create-only", "read-only"}[x.N(6)]
 		}
 	}
 	// conditions may name the soft-delete column itself (typed IS NULL via nil, IS NOT NULL)
@@ -781,6 +818,10 @@ func (w *world) model(pk int) interface{} {
 		return &CParent{ID: pk}
 	case "zerovalue":
 		return &ZParent{ID: pk}
+	case "create-only":
+		return &NParent{ID: pk}
+	case "read-only":
+		return &RParent{ID: pk}
 	}
 	return &Parent{ID: pk}
 }
@@ -802,6 +843,10 @@ func (w *world) markedValue() interface{} {
 		return CParent{Mark: 7}
 	case "zerovalue":
 		return ZParent{Mark: 7}
+	case "create-only":
+		return NParent{Mark: 7}
+	case "read-only":
+		return RParent{Mark: 7}
 	}
 	return Parent{Mark: 7}
 }
@@ -1544,7 +1589,12 @@ func (w *world) runJoins() (string, error) {
 		}
 	}
 	what := fmt.Sprintf("%s join %v", c.Variant, path)
-	nested := c.nested()
+	if c.JoinPreload {
+		db = db.Preload("Parent.Grand")
+		what += " + Preload(Parent.Grand)"
+	}
+	nestedJoin := c.nested()
+	nested := nestedJoin || c.JoinPreload // the grandparent is checked either way
 	var cs []Child
 	tx := w.chain(db).Find(&cs)
 	if tx.Error != nil {
@@ -1611,7 +1661,7 @@ func (w *world) runJoins() (string, error) {
 		// path, grandparent) drop out
 		var vis table
 		for _, r := range w.prim {
-			if attach(r.FK) && (!nested || attachGrand(r.FK)) {
+			if attach(r.FK) && (!nestedJoin || attachGrand(r.FK)) {
 				vis = append(vis, r)
 			}
 		}
@@ -2225,6 +2275,9 @@ func classes(c tcase) []string {
 	}
 	if c.Path == "joins" {
 		cl = append(cl, "joins:"+c.Variant+"/"+strings.Join(c.JoinPath, "+"))
+		if c.JoinPreload {
+			cl = append(cl, "joins:preload-below-joined-relation")
+		}
 	}
 	if c.Repeat {
 		cl = append(cl, "delete:repeated")
